@@ -567,6 +567,25 @@ func (x *Exec) checkInvariants(fr *Frame, loop *Loop, from *ssa.BasicBlock, pc s
 		g := x.evalBool(env, cl.E)
 		x.oblige(fr, kind, fmt.Sprintf("loop%d:%s", loop.Ordinal, label), x.clauseTags(fr.contract, cl), g, pc, "loop invariant", cl.Src)
 	}
+	if kind == "inv-entry" && fr.contract != nil {
+		for i, cl := range fr.contract.Establishes[loop.Ordinal] {
+			if !x.clauseActive(fr.contract, cl) {
+				continue
+			}
+			label := cl.Label
+			if label == "" {
+				label = fmt.Sprintf("e%d", i+1)
+			}
+			// checked where the loop is entered; not part of the invariant
+			saved := len(x.lines)
+			g := x.evalBool(env, cl.E)
+			x.oblige(fr, "establishes", fmt.Sprintf("loop%d:%s", loop.Ordinal, label), x.clauseTags(fr.contract, cl), g, pc, "state on loop entry", cl.Src)
+			// do not keep it as an assumption: it is not an invariant
+			if len(x.lines) > saved {
+				x.lines = x.lines[:len(x.lines)-1]
+			}
+		}
+	}
 }
 
 func (x *Exec) assumeInvariants(fr *Frame, loop *Loop, st *State, pc string) {
